@@ -48,7 +48,7 @@ Mechanisms the property rests on (file:lines in this checkout):
 
 ## What to produce
 
-{("UP TO %d DIFFERENT changes (different mechanisms, different functions; deliver each in its own sub-directory `_out/m1`, `_out/m2`, ... and keep the worktree clean between them with `git stash`/`git checkout`), each of them a" % multi) if multi > 1 else "ONE"} realistic change to the library's NON-test source files (the kind of plausible optimisation, refactor, clean-up
+{("UP TO %d DIFFERENT changes (different mechanisms, different functions; deliver each in its own sub-directory `_out/m1`, `_out/m2`, ... and keep the worktree clean between them with `git diff > file` + `git checkout -- .` (do NOT use `git stash`: the stash is shared by all worktrees of the repository and other workers run in parallel)), each of them a" % multi) if multi > 1 else "ONE"} realistic change to the library's NON-test source files (the kind of plausible optimisation, refactor, clean-up
 or "bug fix" a maintainer could write and a reviewer could accept) that **breaks the property above** while
 
 1. the module still compiles (`go build ./...` and `go vet` not required),
@@ -76,7 +76,8 @@ and a different location in the code:
 * `notes.md` - what you changed, why it breaks the property, exactly what it needs in order to manifest, and the
   results of the two full-suite runs.
 
-Before you finish: `git stash` / revert to verify the demo passes without the change, re-apply and verify it fails
+Before you finish: save your change with `git diff > file`, `git checkout -- .` (do NOT use `git stash`: it is shared with other
+workers' worktrees) to verify the demo passes without the change, re-apply with `git apply` and verify it fails
 with it, and make sure `_out/patch.diff` is current.  Leave the worktree with your change applied.
 Reply with a short summary (mechanism, what it needs, suite results).
 """
